@@ -52,7 +52,10 @@ extern long vh_fault_fired;
 long vh_live_count(void);
 void vh_live_dump(void);
 long vh_live_bytes(void);
-#define LIB(stmt) do { vh_in_lib++; stmt; vh_in_lib--; } while (0)
+/* before every library call the stack below the harness is filled with 0xff bytes (NaN as a double, -1 as an int), and memory
+ * from malloc is filled likewise: a read of memory the library never wrote gives the same, visible, result on every run */
+void vh_dirty_stack(void);
+#define LIB(stmt) do { vh_dirty_stack(); vh_in_lib++; stmt; vh_in_lib--; } while (0)
 /* observation made of several API calls by the harness itself: not subject to the injected fault */
 #define OBS(stmt) do { vh_fault_at = 0; LIB(stmt); } while (0)
 
